@@ -1467,7 +1467,7 @@ pub const fn split_radix(radix: u32) -> (u32, u32) {
         9 => (9, 0),
         10 => (5, 1),
         11 => (11, 0),
-        12 => (6, 1),
+        12 => (3, 2),
         13 => (13, 0),
         14 => (7, 1),
         15 => (15, 0),
